@@ -333,7 +333,8 @@ def obligations(tier, build):
                         assumes=["pre-state keys pairwise distinct and valid"],
                         leverage="aliasing between operation keys and stored keys; validity of keys/values", max_paths=50000))
     for label, fac_ in (("owned-anytrait", owners.dict_factory(route="anytrait")), ("owned-added", owners.dict_factory(added=True)),
-                        ("owned-added-anytrait", owners.dict_factory(route="anytrait", added=True))):
+                        ("owned-added-anytrait", owners.dict_factory(route="anytrait", added=True)),
+                        ("owned-added-over", owners.dict_factory(added="over"))):
         for op in ("setitem", "delitem", "update_pairs", "ior_map", "clear", "popitem", "setdefault"):
             for s in (0, 1):
                 obs.append(Obligation("%s/%s/s=%d" % (label, op, s), make_harness(op, s, 1, "ident", "ident", factory=fac_), env=sym_env,
